@@ -681,6 +681,8 @@ def run(ctx):
     c18.check_ctx_args(P, r9)
     r10 = ctx.rule("C09.R10", "in a named network namespace the revocation list and trust anchors come from that namespace's files")
     c18.check_ns_templates(P, r10)
+    r13 = ctx.rule("C09.R13", "an explicitly given revocation list / trust anchor set is marked as such by both of its setters: the policy check refuses it without the matching switch instead of dropping it")
+    check_explicit_marks(P, r13)
     r12 = ctx.rule("C09.R12", "the revocation list and the trust anchors are read whole (= C18.R12)")
     c18.check_loader_reads_to_eof(P, r12)
     r11 = ctx.rule("C09.R11", "the inherited list of peer names is a complete copy: the string-list container keeps its count in step with its elements")
@@ -743,3 +745,34 @@ def check_slist_count(P, rule):
             rule.ok("%s: every element store is followed by a store of the count" % f.qname, "path exploration")
     if nst < 1:
         raise Broken("C09.R11: no element store found in slist.c")
+
+
+def check_explicit_marks(P, rule):
+    """finalize_tls_conf tells a CRL / trust-anchor item that was *given* to this socket (tls.crl without tls.check_crl:
+    refused with EINVAL) from one merely inherited (dropped silently) by the marks crl_set / tc_set.  A setter that
+    stores the item without the mark turns the application's explicit - and contradictory - configuration into a
+    silent 'no revocation checking'.  The by-file and by-value setters of one item are siblings: both mention the mark
+    (store it, or hand its address to the helper that does)."""
+    from .C11 import registrations
+    regs = registrations(P)
+    rec = P.record("btls_socket")
+    marks = {fl["name"] for fl in rec["fields"] if fl["name"].endswith("_set")}
+    n = 0
+    for x in ("tc", "crl"):
+        mark = x + "_set"
+        if mark not in marks:
+            continue
+        for an in ("tls.%s_file" % x, "tls.%s" % x):
+            for (rf, c, sd, gd) in regs.get(an, []):
+                if sd is None:
+                    continue
+                n += 1
+                rule.instance("%s -> %s" % (an, sd.qname))
+                if any(m["k"] == "member" and m.get("field") == mark for m in sd.nodes.values()):
+                    rule.ok("%s records %s" % (sd.qname, mark), "field mention (store or address handed to the storing helper)")
+                else:
+                    rule.violation("%s:mark-not-set:%s" % (sd.name, mark), "%s stores %s without recording %s: given without its switch (tls.check_crl / tls.auth) the item is "
+                                   "taken for an inherited one and dropped, so the socket runs without the revocation list or trust anchors the application supplied "
+                                   "instead of being refused with EINVAL" % (sd.name, an, mark), loc=sd.file)
+    if n < 4:
+        raise Broken("C09.R13: only %d setters of tls.tc/tls.crl found" % n)
